@@ -33,8 +33,8 @@ FOREIGN = {
 def foreign_campaigns(prop, tier):
     out = []
     for mod, rx in FOREIGN.get(prop, []):
-        # C06B (large operands, ~1 ms per case) keeps its own budget: 3,000 / 40,000 cases
-        out.append(Campaign(mod, "plain", cases=(None if mod == "C06B" else (1500000 if tier == "quick" else 15000000)), keymap=(rx, prop)))
+        # C06B (large operands, ~1 ms per case) and C13 (thread histories) keep their own budgets
+        out.append(Campaign(mod, "plain", cases=(None if mod in ("C06B", "C13") else (1500000 if tier == "quick" else 15000000)), keymap=(rx, prop)))
         if mod.endswith("X"):
             out.append(Campaign(mod, "plain-noslack", cases=(400000 if tier == "quick" else 4000000), keymap=(rx, prop)))
     return out
